@@ -407,20 +407,21 @@ struct World {
          }
          if (quiet) (void) m()->AddBool(PR_NAME_SUBSCRIBE_QUIETLY, true);
          // C13 precondition: a node that comes into view with a non-empty index is tracked only once its snapshot has arrived
-         std::set<std::string> needSnapshot, mustSnapshot;
+         std::set<std::string> needSnapshot, mustSnapshot, quietNew;     // quietNew: what a quietly ADDED subscription matches - the client is not told (a quiet filter change of an existing one is reported in full)
          for (Tree::const_iterator it = before.begin(); it != before.end(); ++it)
          {
             const std::string & p = it->first; if (Depth(p) < 2) continue;
             bool nowPath = false, sel = false;
             for (size_t i=0; i<add.size(); i++) if (PathMatch(add[i].sp, p)) { nowPath = true; if ((add[i].f == 0)||((uint32)add[i].f == it->second.what)) sel = true; }
             if (!nowPath) continue;
-            if (quiet) c.unclaimed.insert(p);
+            if (quiet) for (size_t i=0; i<add.size(); i++) if (PathMatch(add[i].sp, p)) { bool isNew = true; for (size_t k=0; k<c.subs.size(); k++) if (c.subs[k].sp == add[i].sp) isNew = false; if (isNew) quietNew.insert(p); }
             if ((!c.PathSubscribed(p))&&(!it->second.index.empty())) needSnapshot.insert(p);
             if ((sel)&&(!quiet)&&(!it->second.index.empty())&&(!c.Owns(p))) mustSnapshot.insert(p);
          }
          for (size_t i=0; i<add.size(); i++) { bool found = false; for (size_t k=0; k<c.subs.size(); k++) if (c.subs[k].sp == add[i].sp) { c.subs[k].f = add[i].f; found = true; } if (!found) c.subs.push_back(add[i]); }
          for (std::set<std::string>::iterator it = needSnapshot.begin(); it != needSnapshot.end(); ++it) { c.untracked.insert(*it); c.idx.erase(*it); }
          Send(c, m); Pump();
+         for (std::set<std::string>::iterator it = quietNew.begin(); it != quietNew.end(); ++it) c.unclaimed.insert(*it);
          char b[300];
          for (std::set<std::string>::iterator it = mustSnapshot.begin(); it != mustSnapshot.end(); ++it)
             if (!c.snapshots.count(*it)) { snprintf(b, sizeof(b), "%s subscribed to %s (selected, index not empty) but the initial result carries no index snapshot", c.name.c_str(), SpecPathStr(*it).c_str()); V13(b); }
@@ -626,6 +627,83 @@ static int Replay(const char * behFile, const char * repFile)
 }
 
 // ------------------------------------------------------------------------------------------------------------
+// the trace given to TLC (TreeTrace.tla / IndexTrace.tla)
+static J PatternJ(const std::string & rel) { J p = J::Arr(); SV cl = Split(rel, '/'); for (size_t i=0; i<cl.size(); i++) p.push(JStrs(Split(cl[i], ','))); return p; }
+// the clauses of a subscription spelling below the session level (host and session clauses are wildcards in everything generated)
+static J SubPatternJ(const std::string & sp)
+{
+   SV cl = Split(sp[0] == '/' ? sp.substr(1) : "*/*/"+sp, '/'); J p = J::Arr();
+   for (size_t i=2; i<cl.size(); i++) p.push(JStrs(Split(cl[i], ',')));
+   return p;
+}
+static bool AbstractData(const J & cmd, J & out)       // set / remove in the vocabulary of TreeTrace; false: the effect on the tree is not determined by the command alone
+{
+   const std::string op = cmd["op"].s;
+   if (op == "set")
+   {
+      if (cmd["idx"].truthy()) return false;
+      out = J::Obj(); out.set("op", J::Str("set")); out.set("q", cmd["q"]); out.set("v", cmd["v"]); out.set("nc", J::Bool(cmd["nocreate"].truthy())); out.set("no", J::Bool(cmd["nooverwrite"].truthy()));
+      return true;
+   }
+   if (op == "remove")
+   {
+      out = J::Obj(); out.set("op", J::Str("remove")); J keys = J::Arr();
+      if (cmd.has("keys")) for (size_t i=0; i<cmd["keys"].a.size(); i++) keys.push(PatternJ(cmd["keys"].a[i].s)); else keys.push(PatternJ(cmd["key"].s));
+      out.set("keys", keys); return true;
+   }
+   if (op == "reorder") { out = J::Obj(); out.set("op", J::Str("none")); return true; }
+   return false;
+}
+static J AbstractCmd(const J & cmd, bool & calc)
+{
+   const std::string op = cmd["op"].s; J t = J::Obj(); calc = true;
+   if ((op == "set")||(op == "remove")||(op == "reorder")) { if (!AbstractData(cmd, t)) { t = J::Obj(); t.set("op", J::Str("other")); calc = false; } }
+   else if ((op == "multi")||(op == "batch"))
+   {
+      const J & subs = cmd[op == "multi" ? "ops" : "cmds"]; J ops = J::Arr();
+      for (size_t i=0; i<subs.a.size(); i++) { J o; if (!AbstractData(subs.a[i], o)) calc = false; else ops.push(o); }
+      if (calc) { t.set("op", J::Str("seq")); t.set("ops", ops); } else t.set("op", J::Str("other"));
+   }
+   else if (op == "subscribe")
+   {
+      t.set("op", J::Str("subscribe")); J subs = J::Arr();
+      for (size_t i=0; i<cmd["subs"].a.size(); i++) { J e = J::Obj(); e.set("sp", cmd["subs"].a[i]["sp"]); e.set("cl", SubPatternJ(cmd["subs"].a[i]["sp"].s)); e.set("f", cmd["subs"].a[i]["f"]); subs.push(e); }
+      t.set("subs", subs);
+   }
+   else if (op == "unsubscribe") { t.set("op", J::Str("unsubscribe")); t.set("sp", cmd["sp"]); }
+   else if ((op == "getdata")||(op == "connect")||(op == "disconnect")) t.set("op", J::Str(op));
+   else if (op == "maxitems") t.set("op", J::Str("none"));
+   else { t.set("op", J::Str("other")); calc = false; }      // insert, clone, restore: generated names / subtree copies
+   t.set("s", cmd["s"]);
+   return t;
+}
+static J TraceLine(World & w, const J & cmd, const Tree & after)
+{
+   J r = J::Obj(); r.set("e", J::Str("cmd")); r.set("c", cmd);
+   bool calc; r.set("t", AbstractCmd(cmd, calc)); r.set("calc", J::Bool(calc));
+   // the change of the tree the harness observed on the server
+   J d = J::Obj(); J ds = J::Arr(), dd = J::Arr();
+   for (Tree::const_iterator it = w.before.begin(); it != w.before.end(); ++it) if ((World::Depth(it->first) >= 2)&&(after.find(it->first) == after.end())) dd.push(w.SpecPath(it->first));
+   for (Tree::const_iterator it = after.begin(); it != after.end(); ++it) if (World::Depth(it->first) >= 2) { Tree::const_iterator b = w.before.find(it->first); if ((b == w.before.end())||(b->second.what != it->second.what)) { J pr = J::Arr(); pr.push(w.SpecPath(it->first)); pr.push(J::Int(it->second.what)); ds.push(pr); } }
+   d.set("set", ds); d.set("del", dd); r.set("d", d);
+   r.set("u", w.Received()); r.set("x", w.ReceivedIdx());
+   // the server's indices and children after the command, and which nodes each client tracks (IndexTrace)
+   J srv = J::Arr();
+   for (Tree::const_iterator it = after.begin(); it != after.end(); ++it) if ((World::Depth(it->first) >= 2)&&(it->second.hasIndex)) { J n = J::Obj(); n.set("n", w.SpecPath(it->first)); n.set("idx", JStrs(it->second.index)); n.set("kids", JStrs(it->second.kids)); srv.push(n); }
+   r.set("srv", srv);
+   J trk = J::Obj(), unc = J::Obj();
+   for (size_t ci=0; ci<w.cs.size(); ci++) if (w.cs[ci]->connected)
+   {
+      Client & c = *w.cs[ci];
+      J a = J::Arr(); for (Tree::const_iterator it = after.begin(); it != after.end(); ++it) if ((World::Depth(it->first) >= 2)&&(c.PathSubscribed(it->first))&&(!c.untracked.count(it->first))&&(it->second.hasIndex)) a.push(w.SpecPath(it->first));
+      trk.set(c.name, a);
+      if (!c.unclaimed.empty()) { J b = J::Arr(); for (std::set<std::string>::iterator it = c.unclaimed.begin(); it != c.unclaimed.end(); ++it) b.push(w.SpecPath(*it)); unc.set(c.name, b); }
+   }
+   r.set("trk", trk); r.set("unc", unc);
+   return r;
+}
+
+// ------------------------------------------------------------------------------------------------------------
 // random histories
 static std::mt19937 rng;
 static uint32 R(uint32 n) { return n ? (uint32)(rng() % n) : 0; }
@@ -668,7 +746,7 @@ struct Gen {
    {
       const std::string & s = c.name;
       const uint32 k = R(100);
-      const uint32 dataW = idxHeavy ? 22 : 36, remW = idxHeavy ? 8 : 14, subW = 16, unsubW = 5, idxW = idxHeavy ? 30 : 9, cloneW = idxHeavy ? 8 : 3, miscW = 4, batchW = idxHeavy ? 4 : 8;
+      const uint32 dataW = idxHeavy ? 20 : 36, remW = idxHeavy ? 8 : 14, subW = 16, unsubW = 5, idxW = idxHeavy ? 30 : 9, cloneW = idxHeavy ? 8 : 3, miscW = 4, batchW = idxHeavy ? 4 : 8;
       uint32 a = dataW;
       if (k < a) return RandSet(s);
       if (k < (a += remW)) return RandRemove(s);
@@ -700,7 +778,9 @@ struct Gen {
       if (k < (a += batchW))
       {
          J cmd = Cmd("batch", s); J cmds = J::Arr(); const uint32 n = 2+R(3);
-         for (uint32 i=0; i<n; i++) { const uint32 j = R(8); J e = (j < 4) ? RandSet(s) : (j < 6) ? RandRemove(s) : (j == 6) ? RandInsert(s) : RandReorder(s); cmds.push(e); }
+         for (uint32 i=0; i<n; i++) { const uint32 j = R(8); J e = (j < 4) ? RandSet(s) : (j < 6) ? RandRemove(s) : (j == 6) ? RandInsert(s) : RandReorder(s);
+                                        if (e.has("quiet")) e.set("quiet", J::Bool(false));   // quiet parts of a BATCH are not generated: what they touch cannot be told from outside
+                                        cmds.push(e); }
          cmd.set("cmds", cmds); return cmd;
       }
       if (k < (a += 3)) { J cmd = Cmd("multi", s); J ops = J::Arr(); const uint32 n = 2+R(2); for (uint32 i=0; i<n; i++) { J o = J::Obj(); if (R(2)) { SV q; q.push_back(names[R(3)]); if (R(2)) q.push_back(names[R(3)]); o.set("op", J::Str("set")); o.set("q", PathJ(q)); o.set("v", J::Int(1+R(2))); } else { o.set("op", J::Str("remove")); o.set("key", J::Str(pats[R((uint32)pats.size())])); } ops.push(o); } cmd.set("ops", ops); return cmd; }
@@ -727,7 +807,7 @@ static int Explore(int argc, char ** argv)
       if (logit) { J r = J::Obj(); r.set("e", J::Str("Reset")); r.set("h", J::Int(h)); fprintf(trace, "%s\n", mj::ToString(r).c_str()); tracelines++; }
       J hist = J::Arr(); bool bad = false; int step = 0;
       alarm(120);
-      for (int i=0; i<ns; i++) { J c = Cmd("connect", names[i]); w.Exec(c); hist.push(c); if (logit) { J r = J::Obj(); r.set("e", J::Str("cmd")); r.set("c", c); r.set("u", w.Received()); r.set("x", w.ReceivedIdx()); r.set("srv", J::Obj()); r.set("trk", J::Obj()); fprintf(trace, "%s\n", mj::ToString(r).c_str()); tracelines++; } }
+      for (int i=0; i<ns; i++) { J c = Cmd("connect", names[i]); w.Exec(c); hist.push(c); if (logit) { Tree t; w.Walk(t); fprintf(trace, "%s\n", mj::ToString(TraceLine(w, c, t)).c_str()); tracelines++; } }
       for (step=0; (step<ncmds)&&(!bad); step++)
       {
          Client & c = *w.cs[R((uint32)ns)];
@@ -738,26 +818,12 @@ static int Explore(int argc, char ** argv)
          if ((cmd["op"].s == "disconnect")&&(R(2))) continue;
          g_context = "history " + std::to_string((long long) h) + " step " + std::to_string((long long) step) + " " + mj::ToString(cmd);
          opcount[cmd["op"].s]++;
-         // quiet flags stay out of the histories given to TLC (the trace specification makes the claim for all nodes)
          hist.push(cmd);
          w.Exec(cmd);
          Tree t; w.Walk(t);
          w.Check(t);
          for (size_t ci=0; ci<w.cs.size(); ci++) if (w.cs[ci]->connected) for (Tree::iterator it = t.begin(); it != t.end(); ++it) if ((World::Depth(it->first) >= 2)&&(!w.cs[ci]->Owns(it->first))&&(w.cs[ci]->PathSubscribed(it->first))) { if (w.cs[ci]->Selected(it->first, it->second.what)) sel++; else filteredOut++; if ((!it->second.index.empty())&&(!w.cs[ci]->untracked.count(it->first))) idxCompared++; }
-         if (logit)
-         {
-            J r = J::Obj(); r.set("e", J::Str("cmd")); r.set("c", cmd); r.set("u", w.Received()); r.set("x", w.ReceivedIdx());
-            // the server's indices and children after the command, and which nodes each client tracks (IndexTrace)
-            J srv = J::Arr();
-            for (Tree::iterator it = t.begin(); it != t.end(); ++it) if ((World::Depth(it->first) >= 2)&&((it->second.hasIndex)||(!it->second.kids.empty()))) { J n = J::Obj(); n.set("n", w.SpecPath(it->first)); n.set("idx", JStrs(it->second.index)); n.set("kids", JStrs(it->second.kids)); srv.push(n); }
-            r.set("srv", srv);
-            J trk = J::Obj();
-            for (size_t ci=0; ci<w.cs.size(); ci++) if (w.cs[ci]->connected) { J a = J::Arr(); for (Tree::iterator it = t.begin(); it != t.end(); ++it) if ((World::Depth(it->first) >= 2)&&(w.cs[ci]->PathSubscribed(it->first))&&(!w.cs[ci]->untracked.count(it->first))&&(it->second.hasIndex)) a.push(w.SpecPath(it->first)); trk.set(w.cs[ci]->name, a); }
-            r.set("trk", trk);
-            J unc = J::Obj(); for (size_t ci=0; ci<w.cs.size(); ci++) if ((w.cs[ci]->connected)&&(!w.cs[ci]->unclaimed.empty())) { J a = J::Arr(); for (std::set<std::string>::iterator it = w.cs[ci]->unclaimed.begin(); it != w.cs[ci]->unclaimed.end(); ++it) a.push(w.SpecPath(*it)); unc.set(w.cs[ci]->name, a); }
-            r.set("unc", unc);
-            fprintf(trace, "%s\n", mj::ToString(r).c_str()); tracelines++;
-         }
+         if (logit) { fprintf(trace, "%s\n", mj::ToString(TraceLine(w, cmd, t)).c_str()); tracelines++; }
          if ((!w.violations04.empty())||(!w.violations13.empty())) bad = true;
       }
       alarm(0);
